@@ -3,3 +3,4 @@ pub mod round;
 pub mod esr;
 pub mod mnemonic;
 pub mod units;
+pub mod lexer;
